@@ -798,9 +798,11 @@ func (s *appState) genesisOp(d *driver, f []string) (out string) {
 		cacheCtx, write := ctx.CacheContext()
 		store := cacheCtx.KVStore(s.env.App.GetKey(core.ModuleName))
 		var keys [][]byte
+		rawBefore := map[string]string{}
 		it := store.Iterator(nil, nil)
 		for ; it.Valid(); it.Next() {
 			keys = append(keys, append([]byte{}, it.Key()...))
+			rawBefore[string(it.Key())] = string(it.Value())
 		}
 		it.Close()
 		for _, k := range keys {
@@ -822,8 +824,36 @@ func (s *appState) genesisOp(d *driver, f []string) (out string) {
 		after := s.stateStr(cacheCtx)
 		bz2 := mod.ExportGenesis(cacheCtx, cdc)
 		same := after == before && bytes.Equal(bz, bz2)
+		// the module store itself, key by key: whatever the module keeps there — under any prefix — is carried by the export
+		raw := "true"
+		rawAfter := map[string]string{}
+		it2 := store.Iterator(nil, nil)
+		for ; it2.Valid(); it2.Next() {
+			rawAfter[string(it2.Key())] = string(it2.Value())
+		}
+		it2.Close()
+		var diffs []string
+		for k, v := range rawBefore {
+			if w, ok := rawAfter[k]; !ok {
+				diffs = append(diffs, "lost:"+hex.EncodeToString([]byte(k)))
+			} else if w != v {
+				diffs = append(diffs, "changed:"+hex.EncodeToString([]byte(k)))
+			}
+		}
+		for k := range rawAfter {
+			if _, ok := rawBefore[k]; !ok {
+				diffs = append(diffs, "new:"+hex.EncodeToString([]byte(k)))
+			}
+		}
+		if len(diffs) > 0 {
+			sort.Strings(diffs)
+			if len(diffs) > 4 {
+				diffs = diffs[:4]
+			}
+			raw = strings.Join(diffs, ",")
+		}
 		write()
-		return fmt.Sprintf("valid=%s init=ok same=%v st=%s", valid, same, after)
+		return fmt.Sprintf("valid=%s init=ok same=%v raw=%s st=%s", valid, same, raw, after)
 	}
 	return "bad-op"
 }
